@@ -171,6 +171,11 @@ Theorem reconcile_blocked_while_unlaunched : forall s n created,
 Proof. exact reconcile_blocked. Qed.
 Print Assumptions reconcile_blocked_while_unlaunched.
 
+(* the same for a restarted controller (first sync): synced implies every tracked NodeClaim is launched *)
+Theorem first_sync_requires_launched : forall m tn ac an f, synced_first m tn ac an f = true -> synced m = true.
+Proof. exact synced_first_launched. Qed.
+Print Assumptions first_sync_requires_launched.
+
 (* ---- nodes marked for deletion are not counted as capacity ---- *)
 Theorem deleting_not_capacity : forall c e hints daemons nodes tmpls pods s' steps rest,
   pass c e hints daemons nodes tmpls pods = (s', steps, rest) ->
